@@ -340,6 +340,49 @@ def run_jaxley_chain(module, topo, P, dt, solver, tag, timeout_ms=30000):
     return ch.results, info
 
 
+def assemble_sparse(module, topo, P, dt):
+    """Run the real jax.sparse assembly code symbolically and return the matrix it denotes.
+    -> dict(M=[{col: Sym}], b=[Sym], n_nodes, col={spec node: code node}, ok_nodes, out, Xs, internal, indptr, indices, data, reached)"""
+    import jaxley.solver_voltage as SV
+    from jaxley.utils.cell_utils import compute_axial_conductances
+    rt = Runtime()
+    ce = module._comp_edges
+    g = rt.reglob(compute_axial_conductances)(ce, {k: P[k] for k in ("radius", "length", "axial_resistivity", "capacitance")})
+    n_nodes = int(module._n_nodes)
+    captured = {}
+    Xs = SymArray(np.asarray([Sym(z3.Real(f"xs{i}")) for i in range(n_nodes)], dtype=object))
+
+    def spsolve_stub(data, indices, indptr, b, **kw):
+        captured.update(data=data, indices=np.asarray(indices), indptr=np.asarray(indptr), b=b)
+        return Xs
+    rt.stub(SV.jax_spsolve, spsolve_stub)
+    top = rt.reglob(SV.step_voltage_implicit_with_jax_spsolve)
+    internal = np.asarray(module._internal_node_inds)
+    out = top(P["v"], P["a"], P["c"], g, np.asarray(module._data_inds), module._indices_jax_spsolve, module._indptr_jax_spsolve,
+              np.asarray(ce["sink"].to_list()), dt, n_nodes, internal)
+    if not captured:
+        raise RuntimeError("jax_spsolve was not called")
+    data, indices, indptr, b = captured["data"], captured["indices"], captured["indptr"], captured["b"]
+    M = [dict() for _ in range(n_nodes)]
+    for row in range(min(n_nodes, len(indptr) - 1)):
+        for k in range(indptr[row], indptr[row + 1]):
+            c_ = int(indices[k])
+            M[row][c_] = M[row].get(c_, Sym(0)) + data[k]
+    N = topo.N
+    col = {i: i for i in range(N)}
+    srcs, snks, tys = (np.asarray(ce[c].to_list()) for c in ("source", "sink", "type"))
+    ok = n_nodes == N + topo.B and sorted(map(int, internal)) == list(range(N))
+    for par, node in topo.bp_of_parent.items():
+        cand = [int(s_) for s_, k, t in zip(srcs, snks, tys) if t == 1 and int(k) == topo.last[par]]
+        if len(cand) != 1:
+            ok = False
+            continue
+        col[node] = cand[0]
+    ok = ok and len(set(col.values())) == N + topo.B
+    return dict(M=M, b=b, n_nodes=n_nodes, col=col, ok_nodes=ok, out=out, Xs=Xs, internal=internal, indptr=indptr, indices=indices,
+                data=data, reached=dict(rt.reached))
+
+
 def run_sparse(module, topo, P, dt, tag, timeout_ms=30000):
     """jax.sparse backend: the real assembly code runs; `jax_spsolve` is a contract stub that receives the sparse arrays.
     The matrix they denote (by the definition of CSR, which is what jax's spsolve documents) must be the specification
